@@ -1290,9 +1290,10 @@ def cross_check(pid, names, n_per, rng, tag='kern', per_file=400, timeout=600):
     return res
 
 
-def merge_cross_check(res, pid, names, n_per, rng, label='regenerated-kernels'):
-    """run the kernel cross-check for `names` and fold its counts into the correspondence result `res` of a property module"""
-    k = cross_check(pid, names, n_per, rng, tag='kern')
+def merge_cross_check(res, pid, names, n_per, rng, label='regenerated-kernels', per_file=50, timeout=1500):
+    """run the kernel cross-check for `names` and fold its counts into the correspondence result `res` of a property module
+    (small case files: the kernels of the later rounds -- subdivision, fitter, clip glue -- take seconds per case inside Coq; the files run in parallel)"""
+    k = cross_check(pid, names, n_per, rng, tag='kern_' + ''.join(ch for ch in label if ch.isalnum())[-12:], per_file=per_file, timeout=timeout)
     res['n'] += k['n']; res['agree'] += k['agree']
     res['errors'] = list(res.get('errors') or []) + list(k.get('errors') or [])
     res.setdefault('distribution', {})[label] = {d: v['cases'] for d, v in k['distribution'].items()}
